@@ -23,7 +23,7 @@ class Harness:
     def run_path(self, ctx):
         c = ctx
         I = self.I
-        w = SyncWorld(I, ctx, 2, (1,), self.props)
+        w = SyncWorld(I, ctx, 2, (1, 2), self.props)
         w.do_commit(0, 1, allow_delete=False)
         for r in (0, 1):
             w.do_sync(r)
@@ -52,6 +52,12 @@ class Harness:
             c.cover('fault:' + injected[0][0] + ':' + injected[0][2])
             if injected[0][1] == 'add_version' and injected[0][2] == 'err_after':
                 c.cover('lost reply of an accepted version')
+        # optionally the user goes on working before the sync is repeated: one more local change on the interrupted replica
+        # (only explored when no foreign change is in flight, so that the same change is valid in the uninterrupted twin)
+        extra_ops = []
+        if injected and n0 == 0 and c.choose(2, 'change-after-interruption'):
+            extra_ops = [clone_val(o) for o in w.do_commit(1, 1)]
+            c.cover('local change between the interrupted sync and its repetition')
         # repeat the sync, then everybody syncs until quiet
         for rnd in range(2):
             for r in (1, 0):
@@ -70,6 +76,13 @@ class Harness:
         srv = ModelServer(w)
         srv.chain = list(pre_chain)
         dbs = [clone_val(d) for d in pre_dbs]
+        if extra_ops:
+            res = w.sync(dbs[1], srv, client=1)
+            if res.variant != 0:
+                raise Panic('twin sync failed')
+            res = w.commit(dbs[1], [clone_val(o) for o in extra_ops])
+            if res.variant != 0:
+                raise Panic('twin commit failed')
         for rnd in range(2):
             for r in (1, 0):
                 res = w.sync(dbs[r], srv, client=r)
@@ -201,13 +214,14 @@ def validate_samples(sample, out):
 
 
 def required_covers(tier):
-    return ['fault-free baseline', 'lost reply of an accepted version', 'fault:server:err_before', 'fault:storage:err_before']
+    return ['fault-free baseline', 'lost reply of an accepted version', 'fault:server:err_before', 'fault:storage:err_before',
+            'local change between the interrupted sync and its repetition']
 
 
 def configs(tier):
     if tier == 'quick':
         return [dict(name='1fault', factory=lambda: Harness(('p',), 2, 1, 'q'),
-                     bounds='2 replicas; interrupted replica carries 1-2 ops (several versions possible), 0-1 unseen earlier op; one fault at every storage call / server request of the sync x {error before effect, effect then lost reply}')]
+                     bounds='2 replicas, 2 task ids; interrupted replica carries 1-2 ops (several versions possible), 0-1 unseen earlier op; one fault at every storage call / server request of the sync x {error before effect, effect then lost reply}; optionally one more local change between the interrupted sync and its repetition')]
     return [dict(name='1fault-P2', factory=lambda: Harness(('p', 'q'), 2, 1, 't'),
                  bounds='as quick with 2 properties', time_limit_s=3000),
             dict(name='2faults', factory=lambda: Harness(('p',), 2, 1, 't2', second_fault=True),
